@@ -118,9 +118,13 @@ func c13Case(tier string, seed int64, idx int, scratch string) rt.CaseResult {
 	return c
 }
 
-// c13Concurrent: other goroutines are reading through a transaction at the very moment it is
-// committed or rolled back; every read issued after Commit/Rollback has returned must fail with
-// ErrTxNotFound (reads that were in flight may have succeeded).
+// c13Concurrent: every read issued after Commit/Rollback has returned must fail with
+// ErrTxNotFound; then two goroutines end one transaction at the same moment (doubleEnd).
+// Until round 12 three more goroutines kept reading through the transaction while it was ended.
+// That is a use the database does not promise to support (C15: "each transaction from one
+// goroutine at a time"), and at seed 5 it crashed the unchanged tree (a reader that had fetched
+// the transaction's in-memory object iterates its map while the end clears the object for the
+// pool): false alarm F12, the readers were removed.
 func c13Concurrent(tier string, seed int64, idx int, scratch string) rt.CaseResult {
 	var c rt.CaseResult
 	mode := dbx.Inline
@@ -151,21 +155,6 @@ func c13Concurrent(tier string, seed int64, idx int, scratch string) rt.CaseResu
 		if rng.Intn(2) == 0 {
 			tx.Set(ctxBg, "k", []byte(fmt.Sprintf("t%d-%d", idx, it)))
 		}
-		var stop atomic.Bool
-		var wg sync.WaitGroup
-		for g := 0; g < 3; g++ {
-			wg.Add(1)
-			go func(g int) {
-				defer wg.Done()
-				for !stop.Load() {
-					if g%2 == 0 {
-						tx.GetKeys(ctxBg)
-					} else {
-						tx.Get(ctxBg, "k")
-					}
-				}
-			}(g)
-		}
 		end := "commit"
 		if rng.Intn(3) == 0 {
 			end = "rollback"
@@ -177,8 +166,6 @@ func c13Concurrent(tier string, seed int64, idx int, scratch string) rt.CaseResu
 		// reads issued from now on are after the end of the transaction
 		_, e1 := tx.Get(ctxBg, "k")
 		_, e2 := tx.GetKeys(ctxBg)
-		stop.Store(true)
-		wg.Wait()
 		_, e3 := tx.Get(ctxBg, "k")
 		_, e4 := tx.GetKeys(ctxBg)
 		e5 := tx.Commit(ctxBg)
@@ -190,7 +177,7 @@ func c13Concurrent(tier string, seed int64, idx int, scratch string) rt.CaseResu
 		for i, e := range []error{e1, e2, e3, e4, e5} {
 			if cls := seqrun.Class(e); cls != refmodel.TxNotFound {
 				op := []string{"get", "getkeys", "get", "getkeys", "commit"}[i]
-				c.Violate(fmt.Sprintf("late-read-accepted-after-concurrent-end op=%s got=%s", op, cls), fmt.Sprintf("iteration %d (%s, level %d, %s): %s through the transaction after its %s had returned gave %s instead of ErrTxNotFound (other goroutines were reading through it while it ended)", it, modeName(mode), level, end, op, end, cls), map[string]any{"iteration": it, "mode": modeName(mode), "level": level, "end": end})
+				c.Violate(fmt.Sprintf("late-read-accepted-after-concurrent-end op=%s got=%s", op, cls), fmt.Sprintf("iteration %d (%s, level %d, %s): %s through the transaction after its %s had returned gave %s instead of ErrTxNotFound", it, modeName(mode), level, end, op, end, cls), map[string]any{"iteration": it, "mode": modeName(mode), "level": level, "end": end})
 				return c
 			}
 		}
@@ -206,7 +193,7 @@ func c13Concurrent(tier string, seed int64, idx int, scratch string) rt.CaseResu
 		}
 	}
 	if idx == 0 {
-		c.Sample = map[string]any{"scenario": "3 goroutines read through a transaction while it is committed/rolled back; reads issued afterwards must fail", "iterations": iters}
+		c.Sample = map[string]any{"scenario": "reads issued after the end must fail; Commit||Commit and Commit||Rollback on one transaction", "iterations": iters}
 	}
 	return c
 }
